@@ -246,9 +246,13 @@ fn send_form(case: &Case, prev_boundary: &str) -> Result<(Sent, Vec<Part>), Outc
         // a first transmission that the peer resets part-way: it fails, and nothing of it may shape the next one
         let total: usize = expected.iter().map(|p| p.data.len() + 200).sum::<usize>() + 300;
         crate::transport::fail_writes_after(1 + (((f as usize) * total) >> 16));
-        let (_g0, _n0) = serve_scripts(vec![ok_response()]);
-        let _ = prepared.send();
+        let (_g0, n0) = serve_scripts(vec![ok_response()]);
+        let first = prepared.send();
         crate::transport::fail_writes_after(0);
+        let refused = n0.lock().unwrap().dials.first().map(|d| d.1.lock().unwrap().write_refused).unwrap_or(false);
+        if refused && first.is_ok() {
+            return Err(Outcome::fail("C15:reset-transmission-reported-as-sent", "the peer reset the connection while the form was being written (a write was refused), yet send() returned a response".to_string()));
+        }
     }
     // (the factory of the transmission that is judged is installed last)
     let (_guard, net) = serve_scripts(vec![ok_response()]);
